@@ -18138,6 +18138,19 @@ impl<SP: SignerProvider> FundedChannel<SP> {
 	pub(crate) fn verif_positional_state_dump(&self) -> Vec<String> {
 		let id = self.context.channel_id;
 		let mut out = Vec::new();
+		// fingerprint of an optional serializable value: the per-HTLC optional vectors of `write` (sv<tlv type>=<value|->)
+		fn fp<T: Writeable>(v: Option<&T>) -> String {
+			match v {
+				Some(x) => {
+					let mut h = 0xcbf29ce484222325u64;
+					for b in x.encode() {
+						h = (h ^ b as u64).wrapping_mul(0x100000001b3);
+					}
+					format!("{}", h % 1_000_000_007)
+				},
+				None => "-".to_string(),
+			}
+		}
 		let sigs = match self.context.announcement_sigs_state {
 			AnnouncementSigsState::NotSent => "NotSent",
 			AnnouncementSigsState::MessageSent => "MessageSent",
@@ -18177,9 +18190,19 @@ impl<SP: SignerProvider> FundedChannel<SP> {
 					}
 				),
 			};
+			let sv55 = match &h.state {
+				InboundHTLCState::LocalRemoved(InboundHTLCRemovalReason::FailRelay(p)) => {
+					fp(p.attribution_data.as_ref())
+				},
+				InboundHTLCState::LocalRemoved(InboundHTLCRemovalReason::Fulfill {
+					attribution_data,
+					..
+				}) => fp(attribution_data.as_ref()),
+				_ => "-".to_string(),
+			};
 			out.push(format!(
-				"chan_in {} htlc_id={} amt={} cltv={} hash={} state={}",
-				id, h.htlc_id, h.amount_msat, h.cltv_expiry, h.payment_hash, st
+				"chan_in {} htlc_id={} amt={} cltv={} hash={} state={} sv55={}",
+				id, h.htlc_id, h.amount_msat, h.cltv_expiry, h.payment_hash, st, sv55
 			));
 		}
 		for h in self.context.pending_outbound_htlcs.iter() {
@@ -18196,9 +18219,23 @@ impl<SP: SignerProvider> FundedChannel<SP> {
 					if matches!(o, OutboundHTLCOutcome::Success { .. }) { "Success" } else { "Failure" }
 				),
 			};
+			let (sv15, sv61) = match &h.state {
+				OutboundHTLCState::AwaitingRemoteRevokeToRemove(OutboundHTLCOutcome::Success {
+					preimage,
+					attribution_data,
+				})
+				| OutboundHTLCState::AwaitingRemovedRemoteRevoke(OutboundHTLCOutcome::Success {
+					preimage,
+					attribution_data,
+				}) => (fp(Some(preimage)), fp(attribution_data.as_ref())),
+				_ => ("-".to_string(), "-".to_string()),
+			};
 			out.push(format!(
-				"chan_out {} htlc_id={} amt={} cltv={} hash={} state={} skimmed={:?}",
-				id, h.htlc_id, h.amount_msat, h.cltv_expiry, h.payment_hash, st, h.skimmed_fee_msat
+				"chan_out {} htlc_id={} amt={} cltv={} hash={} state={} skimmed={:?} sv15={} sv35={} sv39={} sv61={} sv67={} sv79={}",
+				id, h.htlc_id, h.amount_msat, h.cltv_expiry, h.payment_hash, st, h.skimmed_fee_msat,
+				sv15, h.skimmed_fee_msat.map(|v| v.to_string()).unwrap_or("-".to_string()),
+				fp(h.blinding_point.as_ref()), sv61, if h.hold_htlc.is_some() { "1" } else { "-" },
+				h.accountable as u8
 			));
 		}
 		for (k, u) in self.context.holding_cell_htlc_updates.iter().enumerate() {
@@ -18217,7 +18254,21 @@ impl<SP: SignerProvider> FundedChannel<SP> {
 					format!("FailMalformedHTLC htlc_id={} code={}", htlc_id, failure_code)
 				},
 			};
-			out.push(format!("chan_hold {} #{} {}", id, k, t));
+			let sv = match u {
+				HTLCUpdateAwaitingACK::AddHTLC { skimmed_fee_msat, blinding_point, hold_htlc, accountable, .. } => format!(
+					"sv37={} sv41={} sv57=- sv69={} sv77={}",
+					skimmed_fee_msat.map(|v| v.to_string()).unwrap_or("-".to_string()),
+					fp(blinding_point.as_ref()), if hold_htlc.is_some() { "1" } else { "-" }, *accountable as u8
+				),
+				HTLCUpdateAwaitingACK::ClaimHTLC { attribution_data, .. } => {
+					format!("sv37=- sv41=- sv57={} sv69=- sv77=-", fp(attribution_data.as_ref()))
+				},
+				HTLCUpdateAwaitingACK::FailHTLC { err_packet, .. } => {
+					format!("sv37=- sv41=- sv57={} sv69=- sv77=-", fp(err_packet.attribution_data.as_ref()))
+				},
+				HTLCUpdateAwaitingACK::FailMalformedHTLC { .. } => "sv37=- sv41=- sv57=- sv69=- sv77=-".to_string(),
+			};
+			out.push(format!("chan_hold {} #{} {} {}", id, k, t, sv));
 		}
 		out
 	}
